@@ -351,7 +351,17 @@ func ite(c, a, b string) string {
 
 func sel(a, i string) string        { return "(select " + a + " " + i + ")" }
 func store(a, i, v string) string   { return "(store " + a + " " + i + " " + v + ")" }
-func eq(a, b string) string         { return "(= " + a + " " + b + ")" }
+func eq(a, b string) string {
+	if x, ok := isIntLit(a); ok {
+		if y, ok := isIntLit(b); ok {
+			if x == y {
+				return "true"
+			}
+			return "false"
+		}
+	}
+	return "(= " + a + " " + b + ")"
+}
 func app(f string, args ...string) string {
 	return "(" + f + " " + strings.Join(args, " ") + ")"
 }
